@@ -957,10 +957,22 @@ def run_hashtable(case, R):
     for op in range(case['ops']):
         r = rng.random()
         if r < 0.02:
+            s_old = s
             s = int(rng.integers(1, 9))
             ht.setHashSensitivity(s)
             R.observe('set_sensitivity')
             pool = []
+            # entries stored at the previous precision stay in the table: query the points they would be confused with
+            # if keys of different precisions were comparable (the stored point rounded / truncated to the old
+            # precision) - added after seeded change C09-h (rounded-float keys matched across precisions)
+            if shadow and s != s_old:
+                ids = list(shadow.keys())
+                for k in rng.choice(len(ids), size=min(12, len(ids)), replace=False):
+                    sx, sT = shadow[ids[int(k)]]
+                    f = 10.0 ** s_old
+                    pool.append((np.round(sx, s_old), float(np.round(sT, s_old))))
+                    pool.append((np.floor(sx * f) / f, float(np.floor(sT * f) / f)))
+                R.observe('cross_precision_queries', len(pool))
             continue
         if r < 0.05:
             on = bool(rng.random() < 0.5)
